@@ -66,11 +66,14 @@ func AllEntryPoints(set Settings, v Val) *Program {
 // from the root to the node it logs through (including UpdateContext steps applied to
 // nodes on that path); sibling derivations and all other events are dropped. Indices are
 // renumbered. Used as a metamorphic reference: what the same derivation path emits alone.
+// InPlace: step kinds that change the logger variable they are applied to instead of deriving a new one.
+func InPlace(kind string) bool { return kind == "update" || kind == "rehook" }
+
 func Isolate(p *Program, j int) *Program {
 	keep := map[int]bool{}
 	// resolve aliasing of update steps: node identity
 	ident := func(i int) int {
-		for i >= 0 && p.Steps[i].Kind == "update" {
+		for i >= 0 && InPlace(p.Steps[i].Kind) {
 			i = p.ParentOf(i)
 		}
 		return i
@@ -92,10 +95,10 @@ func Isolate(p *Program, j int) *Program {
 	frozen := map[int]bool{}
 	for _, a := range p.Acts() {
 		if a.K == "step" && keep[a.I] {
-			if p.Steps[a.I].Kind == "update" && frozen[ident(a.I)] {
+			if InPlace(p.Steps[a.I].Kind) && frozen[ident(a.I)] {
 				continue
 			}
-			if p.Steps[a.I].Kind != "update" {
+			if !InPlace(p.Steps[a.I].Kind) {
 				frozen[ident(p.ParentOf(a.I))] = true
 			}
 			st := p.Steps[a.I]
